@@ -229,6 +229,8 @@ class R:
             members = [("f%d" % j, f) for j, f in enumerate(s["fields"])] + [("m%d" % j, m) for j, m in enumerate(s["methods"])]
             if s.get("order") == "mf":      # methods first in the source
                 members = [x for x in members if x[0][0] == "m"] + [x for x in members if x[0][0] == "f"]
+            elif isinstance(s.get("order"), list):      # an explicit order: 1-based indices into fields \o methods
+                members = [members[j - 1] for j in s["order"]]
             for tag, m in members:
                 self.stmt(m, ind + 1, "%s.%s" % (path, tag))
         else:
